@@ -1,10 +1,10 @@
 SPECIFICATION Spec
 CONSTANTS
-  Alphabet = {"lo", "up", "dg", "us", "st", "sp", "dd", "sl", "dq", "sq", "bt", "bs", "nl", "nu", "d2", "d3", "nd", "no", "ns", "iv"}
+  Alphabet = {"lo", "up", "dg", "us", "st", "sp", "dd", "sl", "dq", "sq", "bt", "bs", "nl", "nu", "d2", "d3", "nd", "no", "ns", "iv", "l4", "u4", "n4", "s4"}
   MaxLen = 5
   MinLen = 3
-  Shapes = {"flat", "obj", "multi"}
+  Shapes = {"flat", "multi", "obj", "objmulti", "tags", "tagsmulti", "nested", "nestedmulti"}
   LimMode = "prod"
-  Firsts = {"lo", "up", "dg", "us", "st", "sp", "dd", "sl", "dq", "sq", "bt", "bs", "nl", "nu", "d2", "d3", "nd", "no", "ns", "iv"}
+  Firsts = {"lo", "up", "dg", "us", "st", "sp", "dd", "sl", "dq", "sq", "bt", "bs", "nl", "nu", "d2", "d3", "nd", "no", "ns", "iv", "l4", "u4", "n4", "s4"}
   Sample = TRUE
 INVARIANT CheckAndEmit
